@@ -93,6 +93,8 @@ class Expr:
         idx = self.idx
         if name in self.spec_funcs:
             return self.spec_funcs[name]
+        if name == 'List' and module == '$spec':
+            return VClass('list')
         if name in self.SPEC_BUILTINS:
             return VBuiltin('spec.' + name)
         if name == 'MISSING' and module == '$spec':
@@ -152,6 +154,8 @@ class Expr:
             return VClass(name)
         if name in idx.classes:
             return VClass(name)
+        if module == '$spec' and name[:1].isupper() and name.isidentifier() and name in ('BinaryIO', 'TextIO'):
+            return VClass(name)
         raise OutOfSubset(f'unresolved name {name}', node)
 
     def resolve_dotted(self, dotted: str, node=None) -> SV:
@@ -159,6 +163,8 @@ class Expr:
         if dotted in CLASS_ALIASES:
             return VClass(CLASS_ALIASES[dotted])
         parts = dotted.split('.')
+        if dotted in idx.modules:
+            return VModule(dotted)
         # repo-local: pane.errors.ParseInterrupt, pane.convert.make_converter, pane.util.KW_ONLY ...
         for cut in range(len(parts) - 1, 0, -1):
             mod = '.'.join(parts[:cut])
